@@ -25,7 +25,7 @@ def data_carriers(case):
         if case.get("as_time"):
             return ["nd_f8", "series"]
         cars = [c for c in cars if c not in ("nd_obj", "series_obj")]
-    if vals and all(v is not None and v.denominator == 1 for v in vals) and fn != "valid":
+    if vals and all(v is not None and v.denominator == 1 for v in vals) and not case.get("as_time"):
         cars.append("nd_i8")
     return cars
 
